@@ -367,9 +367,47 @@ def relevant_vars(fn):
     return R
 
 
-def explore2(prog, fn, alphabet, names, spec_init, spec_step, entry_heads, codes, max_configs=400000, pure_hooks=None):
+def explore2(prog, fn, alphabet, names, spec_init, spec_step, entry_heads, codes, max_configs=400000, pure_hooks=None,
+             opaque=None, anywhere=()):
     it = absint.Interp(prog)
     relmemo = {}
+
+    taintmemo = {}
+
+    def tainted(f_):
+        """locals that may hold an input character or a value computed from one"""
+        if f_.key in taintmemo:
+            return taintmemo[f_.key]
+        T = set()
+
+        def has_tape(i):
+            for x in f_.walk(i):
+                sx = f_.s(x)
+                if sx["k"] in P.CALL_KINDS and "JsonDeserializer" in sx.get("callee", {}).get("q", ""):
+                    return True
+                if sx["k"] == "DeclRefExpr" and sx["ref"]["d"] in T:
+                    return True
+            return False
+        changed = True
+        while changed:
+            changed = False
+            for i in f_.walk():
+                st_ = f_.s(i)
+                if st_["k"] == "DeclStmt":
+                    for d in st_["decls"]:
+                        if "init" in d and d["d"] not in T and has_tape(d["init"]):
+                            T.add(d["d"])
+                            changed = True
+                if st_["k"] in ("BinaryOperator", "CompoundAssignOperator") and st_["op"].endswith("=") and st_["op"] not in ("==", "!=", "<=", ">="):
+                    l = f_.s(f_.strip(st_["c"][0], casts=True))
+                    if l["k"] == "DeclRefExpr" and l["ref"]["d"] not in T and has_tape(st_["c"][1]):
+                        T.add(l["ref"]["d"])
+                        changed = True
+        for p_ in f_.params:
+            if p_.get("tk") in ("s8", "u8"):
+                T.add(p_["d"])
+        taintmemo[f_.key] = T
+        return T
 
     def rel(f_):
         if f_.key not in relmemo:
@@ -471,6 +509,33 @@ def explore2(prog, fn, alphabet, names, spec_init, spec_step, entry_heads, codes
                             push(nf, h2, nsst, False, trace + (name(h2),) if len(trace) < 14 else trace)
                     stopped = True
                     break
+                elif is_jd and opaque and nm in opaque:
+                    tok, failcodes, headsel = opaque[nm]
+                    if sst[0] == "stopped":
+                        res.mismatch.append(("calls %s after the point where the scan must stop with %s" % (nm, "/".join(sorted(sst[1]))), trace))
+                        stopped = True
+                        break
+                    r = spec_step(sst[1], tok)
+                    if r[0] != "consume":
+                        res.mismatch.append(("reads a %s (%s) where the scan must stop with %s" % (tok, nm, "/".join(sorted(r[1]))), trace))
+                        stopped = True
+                        break
+                    res.moves += 1
+                    envt2, _cv = freeze(path)
+                    base_cv = dict(path.callval)
+                    tr2 = trace + ("<%s>" % tok,) if len(trace) < 14 else trace
+                    for h2 in headsel(alphabet, head):
+                        cv2 = dict(base_cv)
+                        cv2[e] = C(codes["Ok"])
+                        push(frames[:-1] + ((fkey, b, idx, envt2, tuple(sorted(cv2.items())), retto),), h2, ("run", r[1]), False,
+                             tr2 + (name(h2),) if len(tr2) < 14 else tr2)
+                    for code in sorted(failcodes):
+                        cv2 = dict(base_cv)
+                        cv2[e] = C(codes[code])
+                        push(frames[:-1] + ((fkey, b, idx, envt2, tuple(sorted(cv2.items())), retto),), head, ("stopped", frozenset(failcodes)), past,
+                             tr2 + ("!%s" % code,) if len(tr2) < 14 else tr2)
+                    stopped = True
+                    break
                 else:
                     cal = prog.fns.get(st["callee"]["key"])
                     if cal is not None and cal.cfg is not None and cal.cls.endswith("JsonDeserializer") and touches_tape(prog, cal, tmemo):
@@ -551,6 +616,9 @@ def explore2(prog, fn, alphabet, names, spec_init, spec_step, entry_heads, codes
                     res.unknown.append("return value not a constant error code at %s" % f.loc(e))
                     stopped = True
                     break
+                if got <= set(anywhere):
+                    stopped = True      # resource errors may end the scan anywhere (who returns them is R-WHORET's business)
+                    break
                 if sst[0] == "stopped":
                     want = sst[1]
                 else:
@@ -561,7 +629,7 @@ def explore2(prog, fn, alphabet, names, spec_init, spec_step, entry_heads, codes
                         stopped = True
                         break
                     want = frozenset(r[1])
-                if not got <= want:
+                if not got <= want | set(anywhere):
                     res.mismatch.append(("returns %s where %s is required" % ("/".join(sorted(got)), "/".join(sorted(want))), trace))
                 stopped = True
                 break
@@ -606,6 +674,11 @@ def explore2(prog, fn, alphabet, names, spec_init, spec_step, entry_heads, codes
                 object_state = any(x["k"] == "MemberExpr" and f.s(x["c"][0])["k"] == "CXXThisExpr" and x.get("m", "").endswith("_") and
                                    "function type" not in x.get("t", "") for x in cn if x["c"]) or \
                     any(x["k"] in P.CALL_KINDS and "JsonDeserializer" not in x.get("callee", {}).get("q", "") for x in cn)
+                if not object_state:
+                    # a test on a local that holds no input character (a slot pointer, a filter, ...)
+                    tv = tainted(f)
+                    used = {x["ref"]["d"] for x in cn if x["k"] == "DeclRefExpr" and x["ref"]["k"] in ("local", "parm")}
+                    object_state = bool(used) and not (used & tv)
                 if not object_state:
                     res.unknown.append("condition does not fold at %s: %s" % (f.loc(blk["cond"]), f.text(blk["cond"])[:60]))
                     continue
